@@ -24,14 +24,20 @@ type c16S struct {
 	c16Emb
 }
 
-func (s c16S) Method() string            { return "m" }
-func (s c16S) Add(a, b float64) float64  { return a + b }
-func (s c16S) Greet(n string) string     { return "hi " + n }
-func (s c16S) Var(xs ...int) int         { t := 0; for _, x := range xs { t += x }; return t }
-func (s c16S) Two() (int, error)         { return 1, nil }
-func (s c16S) None()                     {}
-func (s *c16S) PtrMethod() string        { return "pm" }
-func (s c16S) IntArg(i int) int          { return i * 2 }
+func (s c16S) Method() string           { return "m" }
+func (s c16S) Add(a, b float64) float64 { return a + b }
+func (s c16S) Greet(n string) string    { return "hi " + n }
+func (s c16S) Var(xs ...int) int {
+	t := 0
+	for _, x := range xs {
+		t += x
+	}
+	return t
+}
+func (s c16S) Two() (int, error)  { return 1, nil }
+func (s c16S) None()              {}
+func (s *c16S) PtrMethod() string { return "pm" }
+func (s c16S) IntArg(i int) int   { return i * 2 }
 
 // expectation for one lookup
 type c16Exp struct {
@@ -390,10 +396,10 @@ func c16Attr(ci, ki, ai int) core.Result {
 // ---- iteration ----
 
 type c16Seq struct {
-	name  string
-	mk    func(n int) (v stick.Value, keys []stick.Value, vals []stick.Value, ordered bool, isMap bool)
-	iter  bool
-	maxN  int
+	name string
+	mk   func(n int) (v stick.Value, keys []stick.Value, vals []stick.Value, ordered bool, isMap bool)
+	iter bool
+	maxN int
 }
 
 func c16Seqs() []c16Seq {
@@ -503,15 +509,21 @@ func c16Seqs() []c16Seq {
 			return nil, nil, nil, true, false
 		}, true, 0},
 		{"int", func(n int) (stick.Value, []stick.Value, []stick.Value, bool, bool) { return 5, nil, nil, false, false }, false, 0},
-		{"string", func(n int) (stick.Value, []stick.Value, []stick.Value, bool, bool) { return "abc", nil, nil, false, false }, false, 0},
-		{"bool", func(n int) (stick.Value, []stick.Value, []stick.Value, bool, bool) { return true, nil, nil, false, false }, false, 0},
+		{"string", func(n int) (stick.Value, []stick.Value, []stick.Value, bool, bool) {
+			return "abc", nil, nil, false, false
+		}, false, 0},
+		{"bool", func(n int) (stick.Value, []stick.Value, []stick.Value, bool, bool) {
+			return true, nil, nil, false, false
+		}, false, 0},
 		{"struct", func(n int) (stick.Value, []stick.Value, []stick.Value, bool, bool) {
 			return c16S{}, nil, nil, false, false
 		}, false, 0},
 		{"*struct", func(n int) (stick.Value, []stick.Value, []stick.Value, bool, bool) {
 			return &c16S{}, nil, nil, false, false
 		}, false, 0},
-		{"float64", func(n int) (stick.Value, []stick.Value, []stick.Value, bool, bool) { return 1.5, nil, nil, false, false }, false, 0},
+		{"float64", func(n int) (stick.Value, []stick.Value, []stick.Value, bool, bool) {
+			return 1.5, nil, nil, false, false
+		}, false, 0},
 	}
 }
 
